@@ -82,6 +82,7 @@ fn hostile_scripts(rng: &mut Rng, nh: usize) -> Vec<Script> {
                 emit: (0..ne).map(|_| gen_val(rng)).collect(),
                 no_query: rng.chance(1, 12),
                 no_event: rng.chance(1, 12),
+                tolerant: rng.chance(1, 4),
             }
         })
         .collect()
